@@ -347,4 +347,53 @@ Für jede Zahl z in l, mache:
 	Speichere l verkettet mit z in l.
 Schreibe die Zahl (die Länge von l).
 `,
+	// an operation that must stop the program although its result is never used: the run-time error is
+	// observable behaviour, no configuration may remove the operation
+	`Der Text t ist "abc".
+Schreibe den Text "vor".
+Der Buchstabe b ist t an der Stelle 7.
+Schreibe den Text "nach".
+`,
+	`Die Zahlen Liste l ist eine Liste, die aus 1, 2, 3 besteht.
+Schreibe den Text "vor".
+Die Zahl z ist l an der Stelle 0.
+Schreibe den Text "nach".
+`,
+	`Die Text Liste l ist eine Liste, die aus "a", "b" besteht.
+Schreibe den Text "vor".
+Der Text u ist l an der Stelle 3.
+Schreibe den Text "nach".
+`,
+	`Die Variable v ist "text" als Variable.
+Schreibe den Text "vor".
+Die Zahl z ist v als Zahl.
+Schreibe den Text "nach".
+`,
+	`Der Text t ist "abc".
+Die Funktion nimm mit dem Parameter b vom Typ Buchstabe, gibt nichts zurück, macht:
+	Schreibe den Text "in nimm".
+Und kann so benutzt werden:
+	"nimm <b>"
+Schreibe den Text "vor".
+nimm (t an der Stelle 4).
+Schreibe den Text "nach".
+`,
+	`Der Text t ist "abc".
+Schreibe den Text "vor".
+Wenn (t an der Stelle 9) gleich 'a' ist oder wahr, Schreibe den Text "dann".
+Schreibe den Text "nach".
+`,
+	`Die Zahlen Liste l ist eine leere Zahlen Liste.
+Die Zahl i ist 1.
+Schreibe den Text "vor".
+Solange i kleiner als 3 ist, mache:
+	Die Zahl z ist l an der Stelle i.
+	Erhöhe i um 1.
+Schreibe den Text "nach".
+`,
+	`Der Text t ist "äö".
+Schreibe den Text "vor".
+Der Text u ist t im Bereich von 2 bis 1.
+Schreibe den Text "nach".
+`,
 }
